@@ -4,23 +4,24 @@ package main
 
 import "strings"
 
-// ---- translated code (gotrans): compose/pregel.go ----
+// ---- translated code (gotrans): see trans_channels.go ----
 
 func init() { c01Trans = transC01 }
 
 func transC01(r *Repo) []Fact {
-	u := newTransUnit(r, "compose", "C01")
-	u.externs["mergeValues"] = externSig{lean: "ext.mergeValues", results: []*gty{tyAny, tyErr}}
-	u.declareStruct("pregelChannel", nil)
-	all := true
+	_, pregel, mgr := transChannels(r)
+	ok := len(pregel.errs) == 0
 	for _, n := range []string{"reportValues", "get", "reportSkip", "reportDependencies"} {
-		all = u.transFunc("pregelChannel", n, "pregelChannel_"+n) && all
+		if pregel.methods["pregelChannel."+n] == nil {
+			ok = false
+		}
 	}
-	if leanOutDir != "" {
-		writeIfChanged(leanOutDir+"/TransC01.lean", u.render())
+	var out []Fact
+	if ok {
+		out = append(out, boolFact("pregelChannelTranslated", true, "compose/pregel.go: pregelChannel.{reportValues,get,reportSkip,reportDependencies} translated to Gen/TransC01.lean"))
+	} else {
+		out = append(out, unknownFact("pregelChannelTranslated", "Bool", "false", "compose/pregel.go", "not in the translated subset: "+strings.Join(pregel.errs, "; ")))
 	}
-	if all && len(u.errs) == 0 {
-		return []Fact{boolFact("pregelChannelTranslated", true, "compose/pregel.go: pregelChannel.{reportValues,get,reportSkip,reportDependencies} translated to Gen/TransC01.lean")}
-	}
-	return []Fact{unknownFact("pregelChannelTranslated", "Bool", "false", "compose/pregel.go", "not in the translated subset: "+strings.Join(u.errs, "; "))}
+	out = append(out, mgrFact(mgr))
+	return out
 }
